@@ -24,7 +24,13 @@ func VerifHarness_C13_GetMatching() {
 	names := []string{"ConvA", "ConvAB", "OtherConvA", "ConvToString", "A"}
 	tp := types.NewPackage("example.org/in", "in")
 	sig := types.NewSignatureType(nil, nil, nil, types.NewTuple(types.NewVar(token.NoPos, tp, "v", types.Typ[types.Int])), types.NewTuple(types.NewVar(token.NoPos, tp, "", types.Typ[types.Int])), false)
-	for _, n := range names {
+	// one of the names may be a package variable holding a function: those are custom functions as well
+	asVar := nondetChoice("function-valued-variable", len(names)+1) // len(names): none
+	for i, n := range names {
+		if i == asVar {
+			tp.Scope().Insert(types.NewVar(token.NoPos, tp, n, sig))
+			continue
+		}
 		tp.Scope().Insert(types.NewFunc(token.NoPos, tp, n, sig))
 	}
 	g := &PackageLoader{
